@@ -157,7 +157,7 @@ func (c03) AfterOp(x *Exec, task, idx int, op Op, out Outcome) {
 	}
 	before := st.m
 	if why := st.stepModel(x, op, out, c03keys); why != "" {
-		x.fail("model-mismatch:"+op.M, fmt.Sprintf("after %s: %s (model before the call: %s)", op, why, before.S[op.Obj].key()))
+		x.fail("model-mismatch:"+mismatchSite(op, why), fmt.Sprintf("after %s: %s (model before the call: %s)", op, why, before.S[op.Obj].key()))
 		return
 	}
 	if x.tr.Config == "conc" {
